@@ -173,7 +173,17 @@ func init() {
 	}
 }
 
-var discard = slog.New(slog.NewTextHandler(io.Discard, nil))
+var discard = newDiscard()
+
+// development aid: VERIF_C12_LOG=<file> keeps litestream's own debug log of the stress child
+func newDiscard() *slog.Logger {
+	if p := os.Getenv("VERIF_C12_LOG"); p != "" {
+		if f, err := os.OpenFile(p, os.O_CREATE|os.O_WRONLY|os.O_APPEND, 0o644); err == nil {
+			return slog.New(slog.NewTextHandler(f, &slog.HandlerOptions{Level: slog.LevelDebug - 4}))
+		}
+	}
+	return slog.New(slog.NewTextHandler(io.Discard, nil))
+}
 
 type mainDB struct {
 	idx        int
@@ -586,7 +596,7 @@ func (c *child) mkMain(m *mainDB) *litestream.DB {
 	}
 	db.BusyTimeout = 200 * time.Millisecond
 	db.ShutdownSyncTimeout = 0
-	db.Logger = discard
+	db.Logger = discard.With("h", m.name)
 	fc := file.NewReplicaClient(m.rep)
 	px := newProxy(fc, m.arch, time.Duration(s.MaxDelayMs)*time.Millisecond, s.Seed+int64(m.idx)*31+c.seedN.Add(1), m.pst)
 	px.faultPct, px.faultsOn = s.FaultPct, &c.faultsOn
